@@ -284,6 +284,11 @@ def run_cli_case(case, ctx, res):
             stl = ctx.state["styles"][short]
             sidecar = False
             hs = holders(rng, rng.randint(1, 2))
+            tails = {"f": ["Acme Inc", "Joan of Arc"], "f90": ["Yahoo!", "Wham!"], "bat": ["SYSTEM REM"], "m4": ["Medical dnl", "Mary Holland"],
+                     "tex": ["Fifty %"], "lisp": ["Semi ;;;", "Semi ;"], "haskell": ["Dash --"], "python": ["Hash #", "Csharp C#"]}
+            if short in tails and rng.random() < 0.5:
+                # a holder whose last characters are the ones the file's comment marker is made of
+                hs[0] = rng.choice(tails[short])
             with_licence = rng.random() < 0.7
             merge = rng.random() < 0.6
             steps = rng.randint(1, 4) if merge else 1
